@@ -271,6 +271,46 @@ func (t *Table) Text(n Node) string {
 	return strings.TrimSuffix(b.String(), "\n")
 }
 
+// TextNZ is Text with every numeric zero written as -0: another spelling of the same number.
+func (t *Table) TextNZ(n Node) string {
+	if n.IsVoid() {
+		return ""
+	}
+	r, ok := t.Raw(n)
+	if !ok {
+		panic("void inside a document")
+	}
+	var b bytes.Buffer
+	enc := json.NewEncoder(&b)
+	enc.SetEscapeHTML(false)
+	if err := enc.Encode(negZero(r)); err != nil {
+		panic(err)
+	}
+	return strings.TrimSuffix(b.String(), "\n")
+}
+
+func negZero(r any) any {
+	switch v := r.(type) {
+	case float64:
+		if v == 0 {
+			return math.Copysign(0, -1)
+		}
+	case []any:
+		out := make([]any, len(v))
+		for i, e := range v {
+			out[i] = negZero(e)
+		}
+		return out
+	case map[string]any:
+		out := map[string]any{}
+		for k, e := range v {
+			out[k] = negZero(e)
+		}
+		return out
+	}
+	return r
+}
+
 // FromRaw abstracts a generic Go value (as produced by encoding/json with
 // UseNumber or float64) back into a node.
 func (t *Table) FromRaw(r any) Node {
